@@ -260,7 +260,11 @@ Section Analysis.
   Definition pure_fn (d : dests) (f : string) : bool :=
     ok fuel f && forallb (allowed (dest_of d f)) (wsum fuel f).
 
-  (* C16/C17: no function other than initialisers writes a global *)
+  (* C16/C17: no function other than initialisers writes a global.
+     sync.Pool: the translator models Pool.Get as a fresh allocation owned by
+     the caller until Put (ASSUMPTION, see tools/effgen/README.md) and
+     Pool.Put as a no-op, so a package-level pool that is only Get/Put
+     (ff.bigIntPool, ffg.bigIntPool) is read, never written: it is allowed. *)
   Definition is_global (r : root) : bool :=
     match r with RGlobal _ => true | RUnknown => true | _ => false end.
   Definition no_global_write (f : string) : bool :=
